@@ -123,6 +123,13 @@ func scale(tier string, q, t int) int {
 	if tier == "thorough" {
 		return t
 	}
+	if tier == "smoke" {
+		// development aid (tools/try_benign.sh): a fifth of the quick tier
+		if q/5 < 3 {
+			return 3
+		}
+		return q / 5
+	}
 	return q
 }
 
